@@ -237,6 +237,9 @@ type tmoCase struct {
 	// pauses tmoSlowPause before the rest: each wait is shorter than the time-out (tmoSlowTimeout), their sum
 	// is longer - the deadline must have been re-armed when the DATA command was read
 	slow bool
+	// slowcb: a control in which a backend callback takes longer than ReadTimeout (and WriteTimeout is unset);
+	// the client sends everything at once and only reads
+	slowcb bool
 }
 
 const (
@@ -265,6 +268,13 @@ func runTmo(tc tmoCase) *Sx {
 	if tc.slow {
 		tmo = tmoSlowTimeout
 		be.RcptDelay = tmoSlowRcpt
+		// a write time-out much shorter than every wait of this case: it bounds writes, not reads
+		s.WriteTimeout = 300 * time.Millisecond
+	}
+	if tc.slowcb {
+		// the Rcpt callback takes longer than the READ time-out while nothing is being read: no harm
+		tmo = 400 * time.Millisecond
+		be.RcptDelay = 900 * time.Millisecond
 	}
 	s.ReadTimeout = tmo
 
@@ -331,6 +341,8 @@ func finishTmo(tc tmoCase, be *RecBackend, s *smtp.Server, lg *logWriter, client
 					ok = false
 				}
 			}
+		} else if tc.slowcb {
+			// nothing to wait for: the rest follows at once
 		} else if tc.slow {
 			step = "go-ahead"
 			want := 1 + tc.nBefore
@@ -523,6 +535,18 @@ func GenTmo(rng *rand.Rand, thorough bool, emit func(*Sx)) {
 				tc.codes = cat(envCodes, []int{354}, rep(250, tc.nFinal), afterCodes)
 				tc.extra = append(tc.extra, L(A("must-mail"), XS("after@ok")), L(A("for"), A("C01"), L(A("expect-data"), XS(body), A("eof"))),
 					L(A("for"), A("C02"), L(A("must-not-mail"), XS("bait@evil"))))
+				cases = append(cases, tc)
+			}
+			if round == 0 {
+				tc := tmoCase{cfg: cfg, plan: DefaultPlan(), slowcb: true, focus: "C02",
+					first: env + "DATA\r\n" + body[:len(head)], rest: body[len(head):] + ".\r\n" + after,
+					nBefore: len(envCodes) - 1 + 1, nFinal: nr, name: fmt.Sprintf("data-%s-slowcb", fl.name)}
+				if !fl.lmtp {
+					tc.nFinal = 1
+				}
+				tc.codes = cat(envCodes, []int{354}, rep(250, tc.nFinal), afterCodes)
+				tc.extra = append(tc.extra, L(A("must-mail"), XS("after@ok")), L(A("for"), A("C17"), L(A("must-mail"), XS("after@ok"))),
+					L(A("for"), A("C01"), L(A("expect-data"), XS(body), A("eof"))))
 				cases = append(cases, tc)
 			}
 			// ---- BDAT, accepted chunk ----
